@@ -176,13 +176,13 @@ theorem decodeRoute_ok {jt : JetTypes} {p : Plan} {bits : List Bool} {ar : Arrow
 
 /-! ### pruning: fewer constraints -/
 
-theorem cutNodeEqns_sub {jt : JetTypes} {c : Cut} {i : Nat} {nd : Node} {f : Nat}
+theorem cutNodeEqns_sub {jt : JetTypes} {leak : Bool} {c : Cut} {i : Nat} {nd : Node} {f : Nat}
     {es : List Eqn} {f' : Nat} (h : nodeEqns jt i nd f = some (es, f')) :
-    ∃ es', cutNodeEqns jt c i nd f = some (es', f') ∧ ∀ e ∈ es', e ∈ es := by
+    ∃ es', cutNodeEqns jt leak c i nd f = some (es', f') ∧ ∀ e ∈ es', e ∈ es := by
   unfold cutNodeEqns
   rw [h]
   simp only
-  cases hk : c.keep i with
+  cases hk : (c.keep i || leak) with
   | false => exact ⟨[], by simp, fun _ hm => by cases hm⟩
   | true =>
     simp only [if_true]
@@ -198,10 +198,10 @@ theorem cutNodeEqns_sub {jt : JetTypes} {c : Cut} {i : Nat} {nd : Node} {f : Nat
         | true => exact ⟨_, rfl, fun e hm => by simp at hm ⊢; rcases hm with rfl | rfl | rfl <;> simp⟩
     | _ => exact ⟨_, rfl, fun _ hm => hm⟩
 
-theorem cutGo_sub {jt : JetTypes} {c : Cut} :
+theorem cutGo_sub {jt : JetTypes} {leak : Bool} {c : Cut} :
     ∀ (nodes : List Node) (i f : Nat) (acc acc' : List Eqn) (E : List Eqn),
       constraints.go jt i nodes f acc = some E → (∀ e ∈ acc', e ∈ acc) →
-      ∃ E', cutGo jt c i nodes f acc' = some E' ∧ ∀ e ∈ E', e ∈ E
+      ∃ E', cutGo jt leak c i nodes f acc' = some E' ∧ ∀ e ∈ E', e ∈ E
   | [], i, f, acc, acc', E, h, hs => by
     simp only [constraints.go, Option.some.injEq] at h
     subst h
@@ -209,7 +209,7 @@ theorem cutGo_sub {jt : JetTypes} {c : Cut} :
   | nd :: rest, i, f, acc, acc', E, h, hs => by
     simp only [constraints.go, Option.bind_eq_bind, Option.bind_eq_some_iff] at h
     obtain ⟨⟨es, f'⟩, hn, hgo⟩ := h
-    obtain ⟨es', hc, hsub⟩ := cutNodeEqns_sub (c := c) hn
+    obtain ⟨es', hc, hsub⟩ := cutNodeEqns_sub (leak := leak) (c := c) hn
     have : ∀ e ∈ acc' ++ es', e ∈ acc ++ es := by
       intro e hm
       rcases List.mem_append.1 hm with hm | hm
@@ -221,13 +221,13 @@ theorem cutGo_sub {jt : JetTypes} {c : Cut} :
     exact hE'
 
 /-- the constraints of a pruned program are a subset of those of the unpruned program -/
-theorem cutConstraints_sub {jt : JetTypes} {p : Plan} {program : Bool} (c : Cut) {E : List Eqn}
+theorem cutConstraints_sub {jt : JetTypes} {p : Plan} {program : Bool} (leak : Bool) (c : Cut) {E : List Eqn}
     (h : constraints jt p program = some E) :
-    ∃ E', cutConstraints jt p program c = some E' ∧ ∀ e ∈ E', e ∈ E := by
+    ∃ E', cutConstraints jt leak p program c = some E' ∧ ∀ e ∈ E', e ∈ E := by
   simp only [constraints, Option.bind_eq_bind, Option.bind_eq_some_iff, Option.pure_def,
     Option.some.injEq] at h
   obtain ⟨es, hgo, rfl⟩ := h
-  obtain ⟨es', hc, hsub⟩ := cutGo_sub (c := c) p.toList 0 (2 * p.size) [] [] es hgo (fun _ hm => hm)
+  obtain ⟨es', hc, hsub⟩ := cutGo_sub (leak := leak) (c := c) p.toList 0 (2 * p.size) [] [] es hgo (fun _ hm => hm)
   unfold cutConstraints
   rw [hc]
   refine ⟨_, rfl, ?_⟩
@@ -257,8 +257,8 @@ theorem tgtOf_arrows (ρ : Nat → Inf.Ty) (n i : Nat) :
 
 /-- **pruned types are smaller.** Whatever is cut, every node's re-inferred target type is below
 its original target type in the prune order (`least_mono`) … -/
-theorem inferCut_le {jt : JetTypes} {p : Plan} {program : Bool} {c : Cut} {ar ar' : Arrows}
-    (h : infer jt p program = .ok ar) (h' : inferCut jt p program c = .ok ar') :
+theorem inferCut_le {jt : JetTypes} {leak : Bool} {p : Plan} {program : Bool} {c : Cut} {ar ar' : Arrows}
+    (h : infer jt p program = .ok ar) (h' : inferCut jt leak p program c = .ok ar') :
     ∀ i, Le (tgtOf ar' i) (tgtOf ar i) := by
   unfold infer at h
   cases hc : constraints jt p program with
@@ -266,7 +266,7 @@ theorem inferCut_le {jt : JetTypes} {p : Plan} {program : Bool} {c : Cut} {ar ar
   | some E =>
     rw [hc] at h
     simp only at h
-    obtain ⟨E', hc', hsub⟩ := cutConstraints_sub c hc
+    obtain ⟨E', hc', hsub⟩ := cutConstraints_sub leak c hc
     unfold inferCut at h'
     rw [hc'] at h'
     simp only at h'
@@ -293,16 +293,16 @@ theorem inferCut_le {jt : JetTypes} {p : Plan} {program : Bool} {c : Cut} {ar ar
 
 /-- … and re-inference cannot fail: the original typing solves the remaining constraints
 (the `.expect("pruned types should check out if unpruned types check out")`) -/
-theorem inferCut_accepts {jt : JetTypes} {p : Plan} {program : Bool} (c : Cut) {ar : Arrows}
+theorem inferCut_accepts {jt : JetTypes} {p : Plan} {program : Bool} (leak : Bool) (c : Cut) {ar : Arrows}
     (h : infer jt p program = .ok ar) :
-    (∃ ar', inferCut jt p program c = .ok ar') ∨ inferCut jt p program c = .fuel := by
+    (∃ ar', inferCut jt leak p program c = .ok ar') ∨ inferCut jt leak p program c = .fuel := by
   unfold infer at h
   cases hc : constraints jt p program with
   | none => rw [hc] at h; cases h
   | some E =>
     rw [hc] at h
     simp only at h
-    obtain ⟨E', hc', hsub⟩ := cutConstraints_sub c hc
+    obtain ⟨E', hc', hsub⟩ := cutConstraints_sub leak c hc
     unfold inferCut
     rw [hc']
     simp only
